@@ -1,2 +1,3 @@
 import Generated.HelperTable
 import Generated.IoAliases
+import Generated.IoSites
